@@ -301,6 +301,8 @@ where
 
     #[instrument(skip_all)]
     pub async fn listen(&mut self) -> Result<(), Error> {
+        #[cfg(passage_verif)]
+        use crate::verif::clock::SystemTime;
         // handle handshake
         debug!("awaiting handshake packet");
         let handshake = match_packet! { self,
